@@ -118,27 +118,27 @@ Qed.
 
 (* ---- generic facts about the children of a dict / list attribute ---- *)
 
-Lemma children_values {A} (from : string -> json -> res anyobj) cls (G : A -> json) (F : A -> anyobj)
+Lemma children_values {A} (from : string -> json -> res anyobj) cls (G : string * A -> json) (F : string * A -> anyobj)
       (l : list (string * A)) :
-  (forall x, In x l -> from cls (G (snd x)) = Ok (F (snd x))) ->
-  map_res (fun x : string * json => from cls (snd x)) (map (fun kv => (fst kv, G (snd kv))) l)
-  = Ok (map (fun kv => F (snd kv)) l).
+  (forall x, In x l -> from cls (G x) = Ok (F x)) ->
+  map_res (fun x : string * json => from cls (snd x)) (map (fun kv => (fst kv, G kv)) l)
+  = Ok (map F l).
 Proof. intros H. apply map_res_map. intros x Hx. cbn [snd]. now apply H. Qed.
 
-Lemma children_keys {A} (F : A -> anyobj) (l : list (string * A)) :
-  (forall x, In x l -> getattr (F (snd x)) "name" = Ok (VJ (jstr (fst x)))) ->
+Lemma children_keys {A} (F : string * A -> anyobj) (l : list (string * A)) :
+  (forall x, In x l -> getattr (F x) "name" = Ok (VJ (jstr (fst x)))) ->
   map_res (fun ob : anyobj => k <- getattr ob "name" ;; k0 <- as_json k ;; j_str k0)
-          (map (fun kv => F (snd kv)) l) = Ok (map fst l).
+          (map F l) = Ok (map fst l).
 Proof. intros H. apply map_res_map. intros x Hx. rewrite H by exact Hx. reflexivity. Qed.
 
-Lemma combine_keys {A B} (F : A -> B) (l : list (string * A)) :
-  combine (map fst l) (map (fun kv => F (snd kv)) l) = map (fun kv => (fst kv, F (snd kv))) l.
+Lemma combine_keys {A B} (F : string * A -> B) (l : list (string * A)) :
+  combine (map fst l) (map F l) = map (fun kv => (fst kv, F kv)) l.
 Proof. induction l as [|[k a] l IH]; [reflexivity|]. cbn. now rewrite IH. Qed.
 
-Lemma all_of_d_children {A B} (is_x : anyobj -> option B) (inj : B -> anyobj) (h : A -> B)
+Lemma all_of_d_children {A B} (is_x : anyobj -> option B) (inj : B -> anyobj) (h : string * A -> B)
       (l : list (string * A)) :
   (forall b, is_x (inj b) = Some b) ->
-  all_of_d is_x (map (fun kv => (fst kv, inj (h (snd kv)))) l) = Ok (map (fun kv => (fst kv, h (snd kv))) l).
+  all_of_d is_x (map (fun kv => (fst kv, inj (h kv))) l) = Ok (map (fun kv => (fst kv, h kv)) l).
 Proof.
   intros H. induction l as [|[k a] l IH]; [reflexivity|].
   cbn [map all_of_d fst snd]. rewrite H, IH. reflexivity.
@@ -173,17 +173,69 @@ Proof.
   - destruct (map_nonempty (fun kv : string * VResult => (fst kv, vresult_json (snd kv))) kv0 vs) as (d0 & D & HD).
     set (l := kv0 :: vs) in *. rewrite HD.
     unfold from_dict_step, ser_load.
-    assert (Hk : forall x, In x l -> getattr (AVResult (canon_vr (snd x))) "name" = Ok (VJ (jstr (fst x)))).
+    assert (Hk : forall x : string * VResult, In x l ->
+                 getattr (AVResult (canon_vr (snd x))) "name" = Ok (VJ (jstr (fst x)))).
     { intros x Hx. rewrite Forall_forall in Hw. destruct (Hw x Hx) as [Hname _].
       unfold getattr. cbn. now rewrite Hname. }
-    assert (Hv : forall x, In x l -> from_dict_n not_none (S n) "VResult" (vresult_json (snd x))
-                                     = Ok (AVResult (canon_vr (snd x)))).
+    assert (Hv : forall x : string * VResult, In x l ->
+                 from_dict_n not_none (S n) "VResult" (vresult_json (snd x)) = Ok (AVResult (canon_vr (snd x)))).
     { intros x Hx. rewrite Forall_forall in Hw. destruct (Hw x Hx) as [_ Hwf]. now apply from_dict_vresult. }
     assert (Hnd : NoDup (map fst (map (fun kv : string * VResult => (fst kv, AVResult (canon_vr (snd kv)))) l)))
       by (rewrite map_map; exact Hn).
     destruct co; cbn -[from_dict_n dict_of map_res combine all_of_d]; rewrite <- HD;
-      rewrite (children_values _ "VResult" vresult_json (fun v => AVResult (canon_vr v)) l Hv); cbn [bind];
-      rewrite (children_keys (fun v => AVResult (canon_vr v)) l Hk); cbn [bind];
-      rewrite combine_keys, (dict_of_nodup _ Hnd), (all_of_d_children is_vresult AVResult canon_vr l) by reflexivity;
+      rewrite (children_values _ "VResult" (fun kv => vresult_json (snd kv)) (fun kv => AVResult (canon_vr (snd kv))) l Hv);
+      cbn [bind];
+      rewrite (children_keys (fun kv => AVResult (canon_vr (snd kv))) l Hk); cbn [bind];
+      rewrite combine_keys, (dict_of_nodup _ Hnd),
+        (all_of_d_children is_vresult AVResult (fun kv => canon_vr (snd kv)) l) by reflexivity;
+      reflexivity.
+Qed.
+
+(* ------------------------------------------------------------------ FuncLoops *)
+
+Definition funcloops_json (f : FuncLoops) : json :=
+  jobj ([("name", ostr (fl_name f)); ("start_time", jnum (fl_start f)); ("end_time", jnum (fl_end f))]
+        ++ match fl_loops f with
+           | [] => []
+           | ls => [("loops", jarr (map loopresult_json ls))]
+           end).
+
+Definition canon_fl (f : FuncLoops) : FuncLoops :=
+  mkFL (fl_name f) (fl_start f) (fl_end f) (map canon_lr (fl_loops f)).
+
+Definition wf_fl (f : FuncLoops) : Prop := Forall wf_lr (fl_loops f).
+
+Lemma to_dict_funcloops n f : wf_fl f ->
+  to_dict_n (S (S (S n))) (AFuncLoops f) = Ok (funcloops_json f).
+Proof.
+  destruct f as [na st en ls]. unfold wf_fl. cbn [fl_loops]. intros Hw.
+  destruct ls as [|l0 ls]; [reflexivity|].
+  change (to_dict_n (S (S (S n)))) with (to_dict_step (to_dict_n (S (S n)))).
+  unfold to_dict_step, ser_to_dict.
+  cbn -[to_dict_n dict_of dmerge].
+  inversion Hw as [|? ? H0 Hs]; subst.
+  rewrite to_dict_loopresult by apply H0. cbn [bind].
+  rewrite (map_res_map _ ALoopResult loopresult_json ls).
+  - reflexivity.
+  - intros x Hx. rewrite Forall_forall in Hs. apply to_dict_loopresult, Hs, Hx.
+Qed.
+
+Lemma from_dict_funcloops n f : wf_fl f ->
+  from_dict_n not_none (S (S (S n))) "FuncLoops" (funcloops_json f) = Ok (AFuncLoops (canon_fl f)).
+Proof.
+  destruct f as [na st en ls]. unfold wf_fl, canon_fl, funcloops_json.
+  cbn [fl_loops fl_name fl_start fl_end]. intros Hw.
+  change (from_dict_n not_none (S (S (S n)))) with (from_dict_step (from_dict_n not_none (S (S n))) not_none).
+  destruct ls as [|l0 ls].
+  - destruct na; reflexivity.
+  - destruct (map_nonempty loopresult_json l0 ls) as (d0 & D & HD).
+    set (l := l0 :: ls) in *. rewrite HD.
+    unfold from_dict_step, ser_load.
+    assert (Hv : forall x, In x l ->
+                 from_dict_n not_none (S (S n)) "LoopResult" (loopresult_json x) = Ok (ALoopResult (canon_lr x))).
+    { intros x Hx. rewrite Forall_forall in Hw. now apply from_dict_loopresult, Hw. }
+    destruct na; cbn -[from_dict_n map_res all_of]; rewrite <- HD;
+      rewrite (map_res_map _ loopresult_json (fun x => ALoopResult (canon_lr x)) l Hv); cbn [bind];
+      rewrite (all_of_children is_loopresult ALoopResult canon_lr l) by reflexivity;
       reflexivity.
 Qed.
